@@ -14,29 +14,29 @@ CLAIMS = {
  "C09": dict(design="§2 C09", technique="E-EFF identification of returned witness slices + E-PROVE reachability of their populating stores and of a zero allocation length; E-EFF read-only graph argument",
    text="Narrow structural necessary condition of 'come with valid witnesses': a witness slice that ChromaticIndex, ChromaticNumber/dfsDsatur, GreedyColor, IsKColorable or Degeneracy allocates and returns is not allocated with provably zero length and has at least one statically reachable populating store; none of the invariant functions writes its graph argument. Optimality, exactness and properness are not decided.",
    note="A witness whose every store is dead or whose length is provably 0 is wrong for every non-empty input."),
- "C05": dict(design="§2 C05", technique="CFG path rule over E-EFF write attribution (COUPLE), exact SSA pattern rule for single-edge methods, E-EFF freshness/purity, E-PROVE packed-triangle discipline (TRI)",
-   text="Decides three structural clauses for every edit history: adjacency storage is never changed on a path that leaves NumberOfEdges or DegreeSequence unwritten, and the single-edge methods update count and both endpoint degrees with the matching sign; Copy/InducedSubgraph results share no memory with their source and write nothing reachable from it; every index into DenseGraph.Edges in the representation's own methods is the lower-triangle cell of the two vertices named (0 <= I < J proved). Does not decide agreement with the adjacency-set model.",
+ "C05": dict(design="§2 C05", technique="CFG path rule over E-EFF write attribution (COUPLE), exact SSA pattern rule for single-edge methods, E-EFF freshness/purity, E-PROVE packed-triangle discipline (TRI), use-site rule for adjacency bytes (EDGEBYTE), row-ownership rule (ROWS)",
+   text="Decides three structural clauses for every edit history: adjacency storage is never changed on a path that leaves NumberOfEdges or DegreeSequence unwritten, and the single-edge methods update count and both endpoint degrees with the matching sign; Copy/InducedSubgraph results share no memory with their source and write nothing reachable from it; every index into DenseGraph.Edges in the representation's own methods is the lower-triangle cell of the two vertices named (0 <= I < J proved); adjacency bytes of an existing graph are only tested against zero (never used numerically); every SparseGraph row owns its backing array. Does not decide agreement with the adjacency-set model.",
    note="Vertex numbers passed as parameters are non-negative; data-derived operands are recorded as preconditions, not judged."),
- "C06": dict(design="§2 C06", technique="E-EFF freshness of constructors, typed-AST composite-literal completeness, E-PROVE packed-triangle discipline over all generators/transformations/decoders",
-   text="Decides: NewDense/NewSparse keep no caller memory (the aliasing clause); no DenseGraph/SparseGraph literal with adjacency leaves out its counts; every hand-written index into packed-triangle storage in generators, transformations, decoders and the search is a lower-triangle cell for all accepted parameter values (closed form with 0 <= I < J proved, running index, or sweep). Does not decide that each family has exactly its defining edges, nor agreement of hand-filled counts.",
+ "C06": dict(design="§2 C06", technique="E-EFF freshness of constructors, typed-AST composite-literal completeness, E-PROVE packed-triangle discipline over all generators/transformations/decoders, E-EFF ownership (OWNER) and statelessness of views (VIEW), use-site rule for adjacency bytes (EDGEBYTE)",
+   text="Decides: NewDense/NewSparse keep no caller memory (the aliasing clause); no DenseGraph/SparseGraph literal with adjacency leaves out its counts; every hand-written index into packed-triangle storage in generators, transformations, decoders and the search is a lower-triangle cell for all accepted parameter values (closed form with 0 <= I < J proved, running index, or sweep); only SparseGraph's own edit methods write an existing SparseGraph; the live views keep no state; no transformation uses the numeric value of an input adjacency byte. Does not decide that each family has exactly its defining edges, nor agreement of hand-filled counts.",
    note="Data-derived operands (Pruefer codes, Multicode bytes, part sizes) are recorded as preconditions; constructor classification is informational."),
  "C07": dict(design="§2 C07", technique="constant/shape extraction from SSA of the four codecs compared against the format definition (header stores, header sums, thresholds, markers, bit-packing roles)",
-   text="Decides that the four hand-written copies of the graph6/sparse6 size header agree with the published format (thresholds 62/258047/2^36-1, marker bytes, sextet shifts, mask and offset, header lengths, data offsets) and that the bit-packing constants (6 bits per byte, msb first, offset 63, range [63,126] checked before decoding, k = bits(n-1)) are the format's in every codec - including the long-header branches no test executes. Does not decide round-trip equality.",
+   text="Decides that the four hand-written copies of the graph6/sparse6 size header agree with the published format (thresholds 62/258047/2^36-1, marker bytes, sextet shifts, mask and offset, header lengths, data offsets) and that the bit-packing constants (6 bits per byte, msb first, offset 63, range [63,126] checked before decoding, k = bits(n-1)) are the format's in every codec - including the long-header branches no test executes; no codec uses the numeric value of an adjacency byte. Does not decide round-trip equality.",
    note="Format constants transcribed from formats.txt; unrecognised shapes are 'undecided' and fail."),
  "C08": dict(design="§2 C08", technique="goal-directed inductive bounds prover on go/ssa (E-PROVE): index/slice/make/divisor/shift obligations, ranking functions for loops, callee panic preconditions refuted at call sites",
    text="Decides, for every input string, that Graph6Decode and Sparse6Decode themselves never index out of range, never hit an explicit or callee panic, and terminate: every bounds obligation is discharged by the prover from dominating guards (polynomial normal form, division facts, phi-induction), every loop has a ranking function, every callee's explicit panic is refuted at the call site or its stated range contract is proved. Does not decide which malformed strings are rejected, nor the re-encode/decode clause.",
    note="Integer arithmetic does not overflow for declared n <= 4096; AddEdge(i,j) is panic-free for 0 <= i,j < N (trusted contract); listed fmt/errors/strings/bits functions do not panic."),
  "C14": dict(design="§2 C14", technique="emission/consumption automata: encoder and decoder SSA CFGs as NFAs over wire tokens, language inclusion by subset construction; constant agreement of the varint pair",
-   text="Decides that GobEncode and GobDecode agree on the kind (varint vs raw byte) and order of every field of every record, for every automaton shape: L(encoder) ⊆ L(decoder) over tokens extracted from the code itself; plus nine constant relations between encodeUint64 and decodeUint64 (threshold 127, prefix base, length cap, byte order). Does not decide behavioural identity of the decoded automaton.",
+   text="Decides that GobEncode and GobDecode agree on the kind (varint vs raw byte) and order of every field of every record, for every automaton shape: L(encoder) ⊆ L(decoder) over tokens extracted from the code itself; plus the constant relations between encodeUint64 and decodeUint64 (threshold 127, prefix base, length cap, byte order); the decoder assigns every node field on every iteration (no stale state of a reused receiver); the encoded bytes reach no shared buffer. Does not decide behavioural identity of the decoded automaton.",
    note="Regular approximation: element counts are not compared; unrecognised output primitives are 'undecided' and fail."),
  "C18": dict(design="§2 C18", technique="SSA store-pattern rules on the parent-forest representation (ROOTLINK, COMPRESS) + E-EFF write scope",
    text="Decides two representation-level necessary conditions for every history: unions only ever link one Find result to the other or bump the surviving root's rank, and lookups only ever write the representative they return; lookups/Roots write nothing else. Does not decide the partition itself.",
    note="Find returns a root (value-level, not decided); a correct path-halving variant would be reported."),
  "C16": dict(design="§2 C16", technique="constant-table extraction checked with math/big against the arithmetic definition + SSA loop-shape recognition + E-PROVE overflow obligations",
-   text="Decides 'exact or refuse, and refuse no earlier than necessary' for CoeffUint64/Coeff: all 289 Pascal cells and all 30 overflow thresholds are checked against their definition (k*C(T,k) <= 2^64-1 < k*C(T+1,k)), and the code is checked to have the loop shape and dominating guards those bounds are about; every other product/sum/unsigned difference in package comb must be bounded by the prover or be a checked-arithmetic idiom (no silent wrap in Coeffs, Rank, Unrank). Does not decide that Rank/Unrank are inverse.",
+   text="Decides 'exact or refuse, and refuse no earlier than necessary' for CoeffUint64/Coeff: all 289 Pascal cells and all 30 overflow thresholds are checked against their definition (k*C(T,k) <= 2^64-1 < k*C(T+1,k)), and the code is checked to have the loop shape and dominating guards those bounds are about; every other product/sum/unsigned difference in package comb must be bounded by the prover or be a checked-arithmetic idiom (no silent wrap in Coeffs, Rank, Unrank); the package writes no shared state (no memo). Does not decide that Rank/Unrank are inverse.",
    note="64-bit int/uint; math/big; the largest intermediate of acc*=(n-k+i); acc/=i is k*C(n,k) (argued in DESIGN.md)."),
  "C20": dict(design="§2 C20", technique="CFG path rule on go/ssa for error propagation of every write reaching the io.Writer + E-PROVE domain proof for the callback arguments",
-   text="Decides the fault clause for every failure position: every direct write to w and the Flush of the tabwriter built on w has its error tested, the failure edge returns that error, no return precedes the test (buffered tabwriter cell writes are exempt with a stated reason); and the weight callback is only ever called with 0 <= j < i < n. Does not decide the literal output text.",
+   text="Decides the fault clause for every failure position: every direct write to w and the Flush of the tabwriter built on w has its error tested, the failure edge returns that error, no return precedes the test (buffered tabwriter cell writes are exempt with a stated reason); error-recording writer wrappers must not overwrite an earlier error and their error must be returned; and the weight callback is only ever called with 0 <= j < i < n. Does not decide the literal output text.",
    note="text/tabwriter buffers rows until Flush and returns the underlying write error from Flush."),
  "C04": dict(design="§2 C04", technique="exhaustive field classification + SSA data-flow (transfer) matching Save<->Load + gob type walk + E-EFF purity",
    text="Structural half of resumability, for every save point: each GraphIterator/searchGraph field is classified (an unclassified field fails), every saved field flows iterator->record in Save and record->iterator in Load (graph restored field by field), cache fields are only ever nil after Load, every record field is exported and gob-encodable, Save writes nothing reachable from the iterator and the loaded iterator does not keep the reader. Does not decide equality of the resumed sequence.",
@@ -44,14 +44,14 @@ CLAIMS = {
  "C12": dict(design="§2 C12", technique="CFG path rules on go/ssa (no write before error return; cut-set of order-check edges) + E-PROVE lifted precondition at call sites + E-EFF purity / who-writes",
    text="Decides: a rejected Add leaves the builder untouched (no receiver write on any path to an error return), the order check cannot be bypassed and admits neither duplicates nor smaller words (cut-set over bytes.Compare edge values), replaceOrRegister is never called on a childless node (precondition len(links)>=1 proved at all call sites), and queries never write the automaton. Does not decide accepted language, minimality or ranks.",
    note="bytes.Compare in {-1,0,1}; E-EFF may-write summaries; lazy Initialise is the one named exception."),
- "C13": dict(design="§2 C13", technique="E-EFF write summaries with module-restricted CHA for Searcher calls; per-instruction write attribution inside Search",
-   text="Decides the structural part of 'a search leaves the Dawg unchanged and only Step/Backstep change a searcher': Search writes nothing reachable from the Dawg; AllowStep/AllowWord/Chosen of both searchers write nothing reachable from the receiver (including through shared slices of value receivers); inside Search only invoke Step/Backstep write searcher memory. Does not decide result set, order, ranks, or that Backstep undoes Step.",
+ "C13": dict(design="§2 C13", technique="E-EFF write summaries with module-restricted CHA for Searcher calls; per-instruction write attribution inside Search; CFG pairing rule for Step/Backstep passes against a tracking stack (BALANCE)",
+   text="Decides the structural part of 'a search leaves the Dawg unchanged and only Step/Backstep change a searcher': Search writes nothing reachable from the Dawg; AllowStep/AllowWord/Chosen of both searchers write nothing reachable from the receiver (including through shared slices of value receivers); inside Search only invoke Step/Backstep write searcher memory; every searcher receives as many Backstep as Step calls on every path to a return (tracking-stack argument). Does not decide result set, order, ranks, or that one Backstep undoes one Step.",
    note="Closed world: searchers are the module's two implementations."),
  "C15": dict(design="§2 C15", technique="typed-AST permutation-assignment rule (SWAP) + E-PROVE cell distinctness + E-EFF field-writer scan",
-   text="Structural necessary condition, decided for all inputs: every store into the permutation iterators' state slices is an in-place permutation of cells, and only Next writes them, so every yielded value is a rearrangement of the initial multiset. Does not decide completeness, uniqueness or order.",
+   text="Structural necessary condition, decided for all inputs: every store into the permutation iterators' state slices is an in-place permutation of cells, and only Next writes them, so every yielded value is a rearrangement of the initial multiset; iterator constructors keep no caller slice. Does not decide completeness, uniqueness or order.",
    note="Callers do not modify the slice returned by Value(); go/types + go/ssa faithful; E-EFF may-write summaries."),
  "C17": dict(design="§2 C17", technique="interprocedural effect/alias summaries on go/ssa (PURE, RECEIVER-ONLY) + typed-AST permutation rule (SWAP)",
-   text="Decides, for all inputs and histories, the sentence 'non-mutating functions leave their arguments untouched, mutators change only their receiver' (E-EFF write summaries) and that ints.Sort only permutes its slice. Does not decide that the results are the right sets or that Sort orders.",
+   text="Decides, for all inputs and histories, the sentence 'non-mutating functions leave their arguments untouched, mutators change only their receiver' (E-EFF write summaries), that results share no memory with arguments, and that ints.Sort only permutes its slice. Does not decide that the results are the right sets or that Sort orders.",
    note="E-EFF is a sound may-write analysis within its model (no unsafe/reflect, stdlib effect table); append into spare capacity counts as a write."),
  "C19": dict(design="§2 C19", technique="whole-module effect analysis on go/ssa: global-state, goroutine/channel, read-only-query, retained-memory and close-on-all-paths rules",
    text="Race freedom by absence of shared mutable state, for all schedules at once: no function writes or leaks package-level memory, the module starts no goroutine and creates no channel, the named queries write nothing reachable from the shared value, constructors that keep caller memory are an explicit list and never write through it, AllMaximalCliques closes its channel on every path. Does not decide that shards partition the classes.",
